@@ -12,9 +12,10 @@ import LokiModel.Generated.C23Tables
 * `C23_eq_hash_partial`, `C23_set_mem_partial` (T2): `Item.__eq__` and `Item.__hash__` agree, and `set`/`dict` lookup
   agrees with `==`, when the stored names are lower-case; `C23_eq_hash_fixed`: hashing the lower-cased name is
   consistent without any premise (fix candidate).  The failing witnesses are in `Findings/C23.lean`.
-* `C23_dup_keys_partial`, `C23_dup_keys_module`, `C23_dup_keys_folded` (T3): the cache keys produced by
-  `DuplicateKernel` → `get_or_create_item_from_item` do not depend on the case of the suffix options outside the
-  class `KnownDupSuffixCase` (a kernel outside any module and a suffix that changes under `.lower()`).
+* `C23_dup_keys` (T3, full since the `fix:` commit): the cache keys produced by `DuplicateKernel` →
+  `get_or_create_item_from_item` depend on the suffix options only through their lower-cased form, and cloning never
+  fails (`C23_dup_never_fails`).  The old behaviour (kernel outside any module, suffix that changes under
+  `.lower()`) is kept as a regression statement in `Findings/C23.lean`.
 -/
 namespace LokiModel.C23
 open LokiModel.C21
@@ -183,66 +184,46 @@ theorem newItemName_lower (scope loc s s' ms ms' : Name) (h1 : lower s = lower s
 theorem cacheHas_lower (cache : List Name) {a b : Name} (h : lower a = lower b) : cacheHas cache a = cacheHas cache b := by
   unfold cacheHas; rw [h]
 
-theorem not_contains_longer {a n : Name} (h : a.length < n.length) : [lower a].contains n = false := by
+theorem not_contains_longer {a n : Name} (h : a.length < n.length) : [lower a].contains (lower n) = false := by
   simp only [List.contains_cons, List.contains_nil, Bool.or_false, beq_eq_false_iff_ne, ne_eq]
   intro he
   have := congrArg List.length he
-  rw [lower_length] at this
+  rw [lower_length, lower_length] at this
   omega
 
-/-- kernels that live in a module: the produced cache keys depend on the suffix options only through their
-lower-cased form -/
-theorem C23_dup_keys_module (cache : List Name) (scope loc s s' ms ms' : Name) (hsc : scope ≠ [])
+/-- the value of `cloneItem`, case by case -/
+theorem cloneItem_eq (cache : List Name) (scope loc s ms : Name) :
+    cloneItem cache scope loc s ms =
+      if cacheHas cache (newItemName scope loc s ms).2.2 = true then CloneRes.ok []
+      else if scope.isEmpty = true then CloneRes.ok [lower (newItemName scope loc s ms).2.2]
+      else CloneRes.ok ([lower (newItemName scope loc s ms).1] ++ [lower (newItemName scope loc s ms).2.2]) := by
+  have hlen : (newItemName scope loc s ms).1.length < (newItemName scope loc s ms).2.2.length := by
+    have : (newItemName scope loc s ms).2.2 = qual (newItemName scope loc s ms).1 (loc ++ s) := rfl
+    rw [this]
+    simp [qual]
+  by_cases hsc : scope.isEmpty = true
+  · simp [cloneItem, newItemName_scope_isEmpty, hsc]
+  · simp only [cloneItem, newItemName_scope_isEmpty, hsc, not_contains_longer hlen, Bool.false_eq_true, if_false,
+      Bool.not_false, if_true]
+
+/-- **T3 (full)**: the produced cache keys depend on the suffix options only through their lower-cased form -/
+theorem C23_dup_keys (cache : List Name) (scope loc s s' ms ms' : Name)
     (h1 : lower s = lower s') (h2 : lower ms = lower ms') :
     cloneItem cache scope loc s ms = cloneItem cache scope loc s' ms' := by
   obtain ⟨ha, hb⟩ := newItemName_lower scope loc s s' ms ms' h1 h2
-  have hne : ∀ x y, (newItemName scope loc x y).1.isEmpty = false := by
-    intro x y
-    rw [newItemName_scope_isEmpty]
-    cases scope with
-    | nil => exact absurd rfl hsc
-    | cons _ _ => rfl
-  have hlen : ∀ x y, (newItemName scope loc x y).1.length < (newItemName scope loc x y).2.2.length := by
-    intro x y
-    have : (newItemName scope loc x y).2.2 = qual (newItemName scope loc x y).1 (loc ++ x) := rfl
-    rw [this]
-    simp [qual]
-  have hv : ∀ x y, cloneItem cache scope loc x y =
-      if cacheHas cache (newItemName scope loc x y).2.2 = true then CloneRes.ok []
-      else CloneRes.ok ([lower (newItemName scope loc x y).1] ++ [lower (newItemName scope loc x y).2.2]) := by
-    intro x y
-    simp only [cloneItem, hne, not_contains_longer (hlen x y), Bool.false_eq_true, if_false, Bool.not_false, if_true]
-  rw [hv, hv, cacheHas_lower cache hb, ha, hb]
+  rw [cloneItem_eq, cloneItem_eq, cacheHas_lower cache hb, ha, hb]
 
-/-- suffix options that are already lower-case (or differ only where `.lower()` changes nothing) -/
-theorem C23_dup_keys_partial (cache : List Name) (scope loc s s' ms ms' : Name)
-    (h1 : lower s = lower s') (h2 : lower ms = lower ms')
-    (hk : KnownDupSuffixCase scope loc s = false) (hk' : KnownDupSuffixCase scope loc s' = false) :
-    cloneItem cache scope loc s ms = cloneItem cache scope loc s' ms' := by
-  by_cases hsc : scope = []
-  · subst hsc
-    obtain ⟨_, hb⟩ := newItemName_lower [] loc s s' ms ms' h1 h2
-    have hn : ∀ x y, (newItemName [] loc x y).2.2 = '#' :: (loc ++ x) := by intros; rfl
-    have he : ∀ x y, (newItemName [] loc x y).1 = [] := by intros; rfl
-    have hl : ∀ x, lower (loc ++ x) = loc ++ x → lower ('#' :: (loc ++ x)) = '#' :: (loc ++ x) := by
-      intro x hx
-      have : Char.toLower '#' = '#' := by decide
-      simp only [lower, List.map_cons, this] at hx ⊢
-      rw [hx]
-    have hks : lower (loc ++ s) = loc ++ s := by simpa [KnownDupSuffixCase] using hk
-    have hks' : lower (loc ++ s') = loc ++ s' := by simpa [KnownDupSuffixCase] using hk'
-    simp only [cloneItem, he, hn, List.isEmpty_nil, if_true, hl s hks, hl s' hks']
-    have hb' : cacheHas cache ('#' :: (loc ++ s)) = cacheHas cache ('#' :: (loc ++ s')) := by
-      rw [hn, hn] at hb; exact cacheHas_lower cache hb
-    have hsame : loc ++ s = loc ++ s' := by
-      rw [← hks, ← hks', lower_append, lower_append, h1]
-    rw [hb', hsame]
-  · exact C23_dup_keys_module cache scope loc s s' ms ms' hsc h1 h2
+/-- cloning a kernel never ends in "Failed to clone item" -/
+theorem C23_dup_never_fails (cache : List Name) (scope loc s ms : Name) :
+    cloneItem cache scope loc s ms ≠ .failed := by
+  rw [cloneItem_eq]
+  split
+  · intro h; cases h
+  · split <;> (intro h; cases h)
 
 /-- non-vacuity -/
 example : cloneItem [] "km".toList "kern".toList "_Dup".toList [] = .ok ["km_dup".toList, "km_dup#kern_dup".toList] := by decide
 example : cloneItem [] [] "fk".toList "_dup".toList [] = .ok ["#fk_dup".toList] := by decide
-example : KnownDupSuffixCase [] "fk".toList "_dup".toList = false := by decide
-example : KnownDupSuffixCase [] "fk".toList "_Dup".toList = true := by decide
+example : cloneItem [] [] "fk".toList "_Dup".toList [] = .ok ["#fk_dup".toList] := by decide
 
 end LokiModel.C23
